@@ -82,6 +82,6 @@ theorem src_parser_session (ops : List POp) (h : ∀ op ∈ ops, op.isBasic = tr
     rfl
 example : srcRun ({} : PState).toSrc [.feed [0x90, 60], .pending, .get, .feedByte 100, .feed [0xF8], .pending, .get, .get, .get] =
     .ok [.none, .count 0, .none, .none, .none, .count 2, .msg (.chan3 .note_on 0 60 100), .msg (.sys1 .clock), .none] := by
-  decide +kernel
+  rfl
 
 end Mido
